@@ -48,7 +48,9 @@ def qval(q):
 MEDIA = ["text/html", "text/plain", "text/*", "*/*", "application/json", "application/*", "text/html;level=1", "image/png", "TEXT/HTML",
          "text/html;level=1;version=2", "text/html;version=2;level=1", "text/*;format=flowed", "*/*;a=1;b=2", "text/plain;format=flowed;delsp=yes",
          # parameter values over the token alphabet, and quoted ones whose content looks like more parameters
-         "text/plain;charset=Shift_JIS", 'text/html;title="a;q=0"', 'application/json;profile="urn:x;version=2"']
+         "text/plain;charset=Shift_JIS", 'text/html;title="a;q=0"', 'application/json;profile="urn:x;version=2"',
+         # a parameter whose value is the empty string is a parameter all the same
+         'text/plain;format=""', 'image/png;x=""']
 OFF_M = ["text/html", "text/plain", "application/json", "image/png", "application/xml",
          "text/html;level=1", "text/html; version=2; level=1", "text/plain;delsp=yes;format=flowed",
          # optional whitespace before the ';' of a parameter (RFC 9110 5.6.6)
@@ -296,8 +298,8 @@ def check_order(rec, acc, ranges, spec, case, fam):
             return
 
 
-LANG = ["en", "en-US", "en_us", "EN-gb", "de", "*", "fr-CA", "zh-Hant-TW", "fi"]
-OFF_L = ["en", "en-US", "en-GB", "de", "de-AT", "fr", "zh-Hant", "es", "fil-PH", "fi-FI"]  # "fi" / "fil": a 2- and a 3-letter primary tag sharing a prefix
+LANG = ["en", "en-US", "en_us", "EN-gb", "de", "*", "fr-CA", "zh-Hant-TW", "fi", "sr-Latn-RS", "sr"]
+OFF_L = ["en", "en-US", "en-GB", "de", "de-AT", "fr", "zh-Hant", "es", "fil-PH", "fi-FI", "zh_Hant_TW", "sr_Latn_RS", "sr"]  # (tags of three subtags in either separator)  # "fi" / "fil": a 2- and a 3-letter primary tag sharing a prefix
 
 
 def basic_best(items, offers, match):
